@@ -216,6 +216,43 @@ def expand_fn(repo, d, log):
             if data[j:j + 1] != b";":
                 raise GenError(f"{what}: hoist {k}: macro call is not a statement")
             edits.append(Edit(j + 1, j + 1, f" {name}!(__h{k});", "X5b:hoist", tl))
+        elif kw == "inline":
+            # X7: `recv.<method>(|p| body)` on an Option/bool rewritten as the match/if std defines it to be
+            meth = w[1]
+            k = int(w[2].rstrip(":")) if len(w) > 2 else 0
+            cands = [c for c in it.get("combinators", []) if c["method"] == meth]
+            if k >= len(cands):
+                raise GenError(f"{what}: inline {meth} {k}: only {len(cands)} such calls with a closure argument")
+            c = cands[k]
+            if c["escapes"]:
+                raise GenError(f"{what}: inline {meth} {k}: closure body contains `?`/`return`, cannot be inlined")
+            pats = [data[p_["pat"][0]:p_["pat"][1]].decode() for p_ in c["params"]]
+            r0, r1 = c["recv"]
+            b0, b1 = c["body"]
+            pe = c["paren_end"]
+            x = f"__x{k}"
+            if meth == "map" and len(pats) == 1:
+                mid, tail = f" {{ Some({pats[0]}) => Some(", "), None => None }"
+            elif meth == "and_then" and len(pats) == 1:
+                mid, tail = f" {{ Some({pats[0]}) => (", "), None => None }"
+            elif meth == "or_else" and len(pats) == 0:
+                mid, tail = f" {{ Some({x}) => Some({x}), None => (", ") }"
+            elif meth == "unwrap_or_else" and len(pats) == 0:
+                mid, tail = f" {{ Some({x}) => {x}, None => (", ") }"
+            elif meth == "map_err" and len(pats) == 1:
+                mid, tail = f" {{ Ok({x}) => Ok({x}), Err({pats[0]}) => Err(", ") }"
+            elif meth == "then" and len(pats) == 0:
+                mid, tail = None, None
+            else:
+                raise GenError(f"{what}: inline {meth}: unsupported combinator shape")
+            if meth == "then":
+                edits.append(Edit(r0, r0, "if ", "X7:inline", tl))
+                edits.append(Edit(r1, b0, " { Some(", "X7:inline", tl))
+                edits.append(Edit(b1, pe, ") } else { None }", "X7:inline", tl))
+            else:
+                edits.append(Edit(r0, r0, "(match ", "X7:inline", tl))
+                edits.append(Edit(r1, b0, mid, "X7:inline", tl))
+                edits.append(Edit(b1, pe, tail + ")", "X7:inline", tl))
         elif kw == "dropattr":
             drop.update(w[1:])
         elif kw == "keepattr":
